@@ -491,6 +491,9 @@ func genTagCases(cx *CheckCtx) []*Case {
 	keyAlpha := "abcdefghijklmnopqrstuvwxyzABCDEFGHIJKLMNOPQRSTUVWXYZ0123456789_-.,;!#$%&'()*+/<=>?@[]^`{|}~\\"
 	for i := 0; i < cx.N(3000, 200000); i++ {
 		n := r.Intn(9)
+		if r.Chance(3) {
+			n = pick(r, []int{16, 17, 33, 65}) // many keys
+		}
 		seen := map[string]bool{}
 		var kv [][2]string
 		for len(kv) < n {
@@ -500,7 +503,7 @@ func genTagCases(cx *CheckCtx) []*Case {
 				kb = append(kb, keyAlpha[r.Intn(len(keyAlpha))])
 			}
 			k := string(kb)
-			if r.Chance(50) {
+			if r.Chance(50) && n <= 9 {
 				k = pick(r, []string{"json", "xml", "db", "a", "b", "ab", "a-b", "Z9"})
 			}
 			if seen[k] {
